@@ -232,7 +232,7 @@ fn missing_member_of_declared_family(e: &TransformError, src: &str) -> bool {
         }
     };
     let Some(wanted) = shape(name) else { return false };
-    let Some(define) = src.split("\ndefine").nth(1) else { return false };
+    let Some(define) = src.rsplit("define").next().filter(|_| src.contains("define")) else { return false };
     define.lines().any(|line| match line.split(" as ").next() {
         Some(vars) if line.contains(" as ") && line.split(" as ").nth(1).is_some_and(|t| t.contains("for")) => vars.split(',').any(|v| shape(v) == Some(wanted.clone())),
         _ => false,
@@ -270,7 +270,7 @@ fn strict_integer_position(e: &TransformError, src: &str) -> Option<String> {
 /// `UndeclaredVariable(x)` for a plain name that the `define` section does declare.
 fn declared_decision_variable(e: &TransformError, src: &str) -> bool {
     let TransformError::UndeclaredVariable(name) = e.base_error() else { return false };
-    let Some(define) = src.split("\ndefine").nth(1) else { return false };
+    let Some(define) = src.rsplit("define").next().filter(|_| src.contains("define")) else { return false };
     define.lines().any(|line| match line.split(" as ").next() {
         Some(vars) if line.contains(" as ") => vars.split(',').any(|v| v.trim().trim_start_matches('\\') == name),
         _ => false,
